@@ -5,6 +5,12 @@ x target size x column count x container kinds x pad x num_columns given or
 inferred, on the real `iter_utils.rebatched_args`, plus the same law through
 the pipeline operators (`apply/select(batch_size=, fn_batch_size=)`, `batch`).
 Oracle: column-wise concatenation chunked by the target (a Python list).
+
+Columns whose rows are not scalars (arrays of shape (n, d) / (n, d, e), lists
+and tuples of nested lists; alone, paired with 1-D array / list / tuple
+columns and with columns of another width) go through the same drivers:
+`check_rebatched_rows` and `check_pipeline_single/pair`, reference model in
+vmc/oracles/rebatch_ref.py.
 """
 import functools
 import itertools as itt
